@@ -354,6 +354,16 @@ func (f *Flow) edgeFacts(from *ssa.BasicBlock, succIdx int, out Facts) Facts {
 					res.Add(a)
 				}
 			}
+		} else if l.Coll != nil {
+			// ranging over a filtered copy  filter(C, x, G(x)) : the element at hand satisfies G
+			if ct := f.C.Term(l.Coll); ct.Op == "filter" && len(ct.Args) == 3 && ct.Args[1].Op == "bound" {
+				el := T("elem", l.ID, ct)
+				g := ct.Args[2].Subst(map[string]*Term{ct.Args[1].Key(): el})
+				if ga := atomOf(g, "element of a filtered collection"); ga != nil {
+					res.Add(ga)
+					addConjuncts(res, ga)
+				}
+			}
 		}
 	}
 	return res
